@@ -24,6 +24,8 @@ mod join;
 #[doc(hidden)]
 pub mod map;
 mod queues;
+#[cfg(feature = "verif_hooks")]
+pub use queues::{SyncQueue as VerifSyncQueue, ToWrite as VerifToWrite, WriteQueues as VerifWriteQueues};
 #[doc(hidden)]
 pub mod supply;
 #[cfg(test)]
